@@ -36,6 +36,10 @@ type variant struct {
 	member                      string // source of the member in package A; B gets the same with bodyB
 	bodyA, bodyB                string
 	use                         string // expression in app using <pkg>.<member>
+	// both: app imports BOTH packages (aliases pa, pb) in old and new alike; useA / useB are the
+	// two versions of the function body (only a TYPE reference changes sides)
+	both       bool
+	useA, useB string
 }
 
 func variants(r *rand.Rand) []variant {
@@ -43,15 +47,40 @@ func variants(r *rand.Rand) []variant {
 	lo := []string{"strings.ToLower(s)", "s", "strings.Repeat(s, 3)"}[r.Intn(3)]
 	k1, k2 := 3+r.Intn(5), 11+r.Intn(7)
 	return []variant{
-		{"same-name-callee/sibling-directories", "codec", "example.com/app/legacy/codec", "example.com/app/codec",
-			"func Label(s string) string { return \"[\" + %s + \"]\" }", up, lo, "codec.Label(s) + \"!\""},
-		{"same-name-callee/major-version-directory", "lib", "example.com/app/lib", "example.com/app/lib/v2",
-			"func Weight(s string) int { return len(s)*%s + 1 }", fmt.Sprint(k1), fmt.Sprint(k2), "fmt.Sprint(lib.Weight(s) + 2)"},
-		{"same-name-global/sibling-directories", "conf", "example.com/app/internal/a/conf", "example.com/app/internal/b/conf",
-			"var Prefix = %s", `"old:"`, `"new:"`, "conf.Prefix + s"},
-		{"same-name-method-value/sibling-directories", "enc", "example.com/app/x/enc", "example.com/app/y/enc",
-			"func Apply(f func(string) string, s string) string { return %s }", "f(s) + \"1\"", "f(f(s)) + \"2\"", "enc.Apply(strings.ToUpper, s)"},
+		{kind: "same-name-callee/sibling-directories", pkgName: "codec", pathA: "example.com/app/legacy/codec", pathB: "example.com/app/codec",
+			member: "func Label(s string) string { return \"[\" + %s + \"]\" }", bodyA: up, bodyB: lo, use: "codec.Label(s) + \"!\""},
+		{kind: "same-name-callee/major-version-directory", pkgName: "lib", pathA: "example.com/app/lib", pathB: "example.com/app/lib/v2",
+			member: "func Weight(s string) int { return len(s)*%s + 1 }", bodyA: fmt.Sprint(k1), bodyB: fmt.Sprint(k2), use: "fmt.Sprint(lib.Weight(s) + 2)"},
+		{kind: "same-name-global/sibling-directories", pkgName: "conf", pathA: "example.com/app/internal/a/conf", pathB: "example.com/app/internal/b/conf",
+			member: "var Prefix = %s", bodyA: `"old:"`, bodyB: `"new:"`, use: "conf.Prefix + s"},
+		{kind: "same-name-method-value/sibling-directories", pkgName: "enc", pathA: "example.com/app/x/enc", pathB: "example.com/app/y/enc",
+			member: "func Apply(f func(string) string, s string) string { return %s }", bodyA: "f(s) + \"1\"", bodyB: "f(f(s)) + \"2\"", use: "enc.Apply(strings.ToUpper, s)"},
+		// only a TYPE changes sides (type switch / assertion): nothing but the rendering of the
+		// named type tells the two functions apart; both packages are imported by old and new
+		{kind: "same-name-type/type-switch", pkgName: "wire", pathA: "example.com/app/v1/wire", pathB: "example.com/app/v2/wire",
+			member: "type Tag struct{ S string }\n\nvar _ = %s", bodyA: "1", bodyB: "2", both: true,
+			useA: "var v any = pa.Tag{S: s}\n\tswitch v.(type) {\n\tcase pa.Tag:\n\t\treturn \"tagged:\" + s\n\t}\n\treturn \"plain:\" + s",
+			useB: "var v any = pa.Tag{S: s}\n\tswitch v.(type) {\n\tcase pb.Tag:\n\t\treturn \"tagged:\" + s\n\t}\n\treturn \"plain:\" + s"},
+		{kind: "same-name-type/assertion", pkgName: "wire", pathA: "example.com/app/m1/wire", pathB: "example.com/app/m2/wire",
+			member: "type ID int\n\nvar _ = %s", bodyA: "1", bodyB: "2", both: true,
+			useA: "var v any = pb.ID(len(s))\n\tif _, ok := v.(pa.ID); ok {\n\t\treturn \"a\"\n\t}\n\treturn \"b\"",
+			useB: "var v any = pb.ID(len(s))\n\tif _, ok := v.(pb.ID); ok {\n\t\treturn \"a\"\n\t}\n\treturn \"b\""},
 	}
+}
+
+const pkgHead = "\n\nimport (\n\t\"fmt\"\n\t\"strings\"\n)\n\nvar _, _ = fmt.Sprint, strings.ToUpper\n\n// Marker is there so that importing the package is always a use of it.\nvar Marker = 0\n\n"
+
+func appSource(v variant, imp string, side int) string {
+	head := "package app\n\nimport (\n\t\"fmt\"\n\t\"strings\"\n\n"
+	tail := ")\n\nvar _, _ = fmt.Sprint, strings.ToUpper\n\n// Render is the function under comparison.\nfunc Render(s string) string {\n\t"
+	if v.both {
+		body := v.useA
+		if side == 1 {
+			body = v.useB
+		}
+		return head + "\tpa \"" + v.pathA + "\"\n\tpb \"" + v.pathB + "\"\n" + ")\n\nvar _, _ = fmt.Sprint, strings.ToUpper\nvar _, _ = pa.Marker, pb.Marker\n\n// Render is the function under comparison.\nfunc Render(s string) string {\n\t" + body + "\n}\n"
+	}
+	return head + "\t\"" + imp + "\"\n" + tail + "return " + v.use + "\n}\n"
 }
 
 func write(p, s string) error {
@@ -73,9 +102,9 @@ func Build(dir string, r *rand.Rand) []Scenario {
 			m := filepath.Join(root, []string{"old", "new"}[side])
 			files := map[string]string{
 				"go.mod": "module example.com/app\n\ngo 1.24\n",
-				filepath.Join(strings.TrimPrefix(v.pathA, "example.com/app/"), "p.go"): "package " + v.pkgName + "\n\nimport (\n\t\"fmt\"\n\t\"strings\"\n)\n\nvar _, _ = fmt.Sprint, strings.ToUpper\n\n" + fmt.Sprintf(v.member, v.bodyA) + "\n",
-				filepath.Join(strings.TrimPrefix(v.pathB, "example.com/app/"), "p.go"): "package " + v.pkgName + "\n\nimport (\n\t\"fmt\"\n\t\"strings\"\n)\n\nvar _, _ = fmt.Sprint, strings.ToUpper\n\n" + fmt.Sprintf(v.member, v.bodyB) + "\n",
-				filepath.Join("app", "app.go"):                                         "package app\n\nimport (\n\t\"fmt\"\n\t\"strings\"\n\n\t\"" + imp + "\"\n)\n\nvar _, _ = fmt.Sprint, strings.ToUpper\n\n// Render is the function under comparison.\nfunc Render(s string) string {\n\treturn " + v.use + "\n}\n",
+				filepath.Join(strings.TrimPrefix(v.pathA, "example.com/app/"), "p.go"): "package " + v.pkgName + pkgHead + fmt.Sprintf(v.member, v.bodyA) + "\n",
+				filepath.Join(strings.TrimPrefix(v.pathB, "example.com/app/"), "p.go"): "package " + v.pkgName + pkgHead + fmt.Sprintf(v.member, v.bodyB) + "\n",
+				filepath.Join("app", "app.go"):                                         appSource(v, imp, side),
 				filepath.Join("cmd", "run", "main.go"):                                 "package main\n\nimport (\n\t\"fmt\"\n\n\t\"example.com/app/app\"\n)\n\nfunc main() {\n\tfor _, s := range []string{\"\", \"a\", \"MiXed\", \" x \", \"hello world\"} {\n\t\tfmt.Printf(\"%q => %q\\n\", s, app.Render(s))\n\t}\n}\n",
 			}
 			for rel, content := range files {
